@@ -153,6 +153,54 @@ def c_fn_value_ir(body: Dict[str, Any], src_of: Optional[Callable[[Dict[str, Any
     return of([body])
 
 
+def eval_ir(e: IR, env: Dict[str, int]) -> int:
+    """fold an IR expression for given integer values of its symbols (keys: show() of a symbol / attribute); comparisons and
+    boolean operators give 0 / 1. Constant folding on a grid of operand values - no repository code runs."""
+    t = e[0]
+    if t == 'num':
+        return int(e[1])
+    if t in ('sym', 'attr'):
+        k = show(e)
+        if k not in env:
+            raise Unrecognised(f'eval_ir: unbound {k}')
+        return env[k]
+    if t == 'un':
+        v = eval_ir(e[2], env)
+        if e[1] == '-':
+            return -v
+        if e[1] == '~':
+            return ~v
+        if e[1] in ('!', 'not'):
+            return int(not v)
+        if e[1] == '+':
+            return v
+        raise Unrecognised(f'eval_ir: unary {e[1]}')
+    if t == 'bin':
+        a, b = eval_ir(e[2], env), eval_ir(e[3], env)
+        ops = {'+': lambda: a + b, '-': lambda: a - b, '*': lambda: a * b, '<<': lambda: a << b, '>>': lambda: a >> b, '&': lambda: a & b,
+               '|': lambda: a | b, '^': lambda: a ^ b, '//': lambda: a // b, '/': lambda: a // b, '%': lambda: a % b, '**': lambda: a ** b}
+        if e[1] not in ops:
+            raise Unrecognised(f'eval_ir: operator {e[1]}')
+        return ops[e[1]]()
+    if t == 'cmp':
+        vals = [eval_ir(x, env) for x in e[2]]
+        for op, (a, b) in zip(e[1], zip(vals, vals[1:])):
+            r = {'<': a < b, '<=': a <= b, '>': a > b, '>=': a >= b, '==': a == b, '!=': a != b}.get(op)
+            if r is None:
+                raise Unrecognised(f'eval_ir: comparison {op}')
+            if not r:
+                return 0
+        return 1
+    if t == 'bool':
+        vals = [eval_ir(x, env) for x in e[2]]
+        return int(all(vals)) if e[1] == 'and' else int(any(vals))
+    if t == 'cond':
+        return eval_ir(e[2] if eval_ir(e[1], env) else e[3], env)
+    if t == 'call' and e[1][0] == 'attr' and e[1][2] == 'bit_length' and not e[2]:
+        return eval_ir(e[1][1], env).bit_length()
+    raise Unrecognised(f'eval_ir: {t}')
+
+
 # ---------------------------------------------------------------- propositional reading of conditions
 
 def bool_form(ir: IR) -> Any:
@@ -183,6 +231,31 @@ def bool_form(ir: IR) -> Any:
         if op == '<=':
             return ('not', ('atom', f'{show(b)} < {show(a)}'))
     return ('atom', show(ir))
+
+
+def bf_equiv(a: Any, b: Any) -> bool:
+    return bf_implies([a], b) and bf_implies([b], a)
+
+
+def py_bool_function(body: Any, label: str = '<fn>') -> Any:
+    """the truth value a side-effect-free Python predicate returns, as ONE propositional formula over canonical atoms: the
+    disjunction over its paths of (path conditions and returned expression) - `return a or b`, `if a: return True; return b` and
+    `if not a: return b; return True` read alike. (forward substitution, then bool_form of each path)"""
+    import ast as _ast
+    from .pysubst import block_outcomes
+    paths = []
+    for o in block_outcomes(list(body), {}, label):
+        if o.result[0] != 'return' or o.result[1] is None:
+            raise Unrecognised(f'{label}: a path does not return a value')
+        conj = [bool_form(py_ir(_ast.parse(c, mode='eval').body)) for c in o.conds]
+        r = _ast.parse(o.result[1], mode='eval').body
+        if isinstance(r, _ast.Constant) and isinstance(r.value, bool):
+            if not r.value:
+                continue
+        else:
+            conj.append(bool_form(py_ir(r)))
+        paths.append(('and', conj))
+    return ('or', paths)
 
 
 def _bf_atoms(f: Any, out: set) -> set:
@@ -487,6 +560,29 @@ def _min_hi(a: Optional[Lin], b: Optional[Lin]) -> Optional[Lin]:
 
 def _atomic(op: str, lhs: IR, rhs: IR, var: str, env: Env, unsigned: bool) -> Optional[Interval]:
     """one comparison lhs OP rhs -> interval of var, or None when var does not occur."""
+    # (X >> k) OP R with X = var + rest:  the floor shift compares X against multiples of 2^k
+    #   == R  <=>  R*2^k <= X <= R*2^k + 2^k - 1 ;  < R <=> X < R*2^k ;  <= R <=> X < (R+1)*2^k ;  > R <=> X >= (R+1)*2^k ;  >= R <=> X >= R*2^k
+    for a_, b_, flip in ((lhs, rhs, False), (rhs, lhs, True)):
+        if a_[0] == 'bin' and a_[1] == '>>' and a_[3][0] == 'num' and 0 <= a_[3][1] < 64:
+            X, Rl = to_lin(a_[2], env), to_lin(b_, env)
+            if X.get(var, 0) == 1 and Rl.get(var, 0) == 0:
+                k2 = 1 << a_[3][1]
+                restX = {kk: v for kk, v in X.items() if kk != var}
+                op2 = op if not flip else {'<': '>', '<=': '>=', '>': '<', '>=': '<=', '==': '==', '!=': '!='}[op]
+                base = lin_add(lin_scale(Rl, k2), restX, -1)                     # value of var at X == R*2^k
+                nxt = lin_add(base, {'': k2})                                    # value of var at X == (R+1)*2^k
+                if op2 == '==':
+                    return Interval(var, base, lin_add(nxt, {'': 1}, -1))
+                if op2 == '!=':
+                    return Interval(var, base, lin_add(nxt, {'': 1}, -1), neg=True)
+                if op2 == '<':
+                    return Interval(var, None, lin_add(base, {'': 1}, -1))
+                if op2 == '<=':
+                    return Interval(var, None, lin_add(nxt, {'': 1}, -1))
+                if op2 == '>':
+                    return Interval(var, nxt, None)
+                if op2 == '>=':
+                    return Interval(var, base, None)
     L, R = to_lin(lhs, env), to_lin(rhs, env)
     cl, cr = L.get(var, 0), R.get(var, 0)
     if cl == 0 and cr == 0:
